@@ -9,6 +9,11 @@
    and a large enough L gives the unbudgeted result.
    NOT modelled (observed by the subprocess matrix of tools/props/C15.py): CPython's frame accounting
    and constants, the C stack, MemoryError, generator `yield from` chains, running time. *)
+(* source pins: the functions of /repo the hand-written models in this file's cone mirror have the normalised AST they
+   were written from (tools/regen/gen_srcpins.py; a changed function breaks its Gen/Pin_*.v and this file with it) *)
+From SqlModel.Gen Require LexPins.   (* the scan loop, is_keyword, consume and the class-level state of sqlparse/lexer.py have the pinned shape *)
+From SqlModel.Gen Require Pin_api_glue Pin_formatter_module Pin_sql_tree Pin_utils_helpers.
+From SqlModel.Inst Require PassTabOk.   (* the grouping tables and driver pins of Group/Passes.v equal the ones regenerated from the source *)
 From Coq Require Import List NArith Arith Bool Lia.
 From SqlModel Require Import Base PyStr Lexer SplitDefs Splitter Node Inv Passes Budget BudgetFacts.
 From SqlModel.Gen Require Import CallGraph.
